@@ -34,7 +34,9 @@ def gen_name(r):
     return gen.metric_name(r, nonascii=False)
   if c < 0.8:
     return gen.metric_name(r, nonascii=True, punct=r.random() < 0.5)
-  return r.choice(['é', '\U0001F600.\U0001F600', 'a' * 200, '中.文', 'x\x00y', 'a;b=c', 'a{b="c"}', '~', '́a', 'ｆｕｌｌ'])
+  if c < 0.9:
+    return r.choice(['é', '\U0001F600.\U0001F600', 'a' * 200, '中.文', 'x\x00y', 'a;b=c', 'a{b="c"}', '~', '́a', 'ｆｕｌｌ'])
+  return r.choice(gen.ODD_NAMES)
 
 
 def gen_ts_text(r):
